@@ -78,7 +78,13 @@ type object []member
 
 func genDoc(g *jpspec.Gen, r *rand.Rand, depth int, top bool) any {
 	if !top && (depth <= 0 || r.Intn(4) == 0) {
-		return g.Leaf()
+		l := g.Leaf()
+		if s, ok := l.(string); ok && r.Intn(2) == 0 {
+			// strings with the characters the tokenizers treat specially: the other quote character, an
+			// escaped quote, escapes, non-ASCII (still unique: the leaf number stays in)
+			l = []string{"it's ", "say \"hi\" ", "tab\t", "é", "back\\slash ", "'", "a b "}[r.Intn(7)] + s
+		}
+		return l
 	}
 	if r.Intn(2) == 0 {
 		n := r.Intn(5)
